@@ -301,3 +301,8 @@ def finalize(ctx):
         ctx.inconc("no fired rewrite was value-checked")
     if ctx.counters.get("fused_blocks_compared", 0) == 0:
         ctx.inconc("no fused block was compared")
+
+
+RULE += (
+    ' Grid contract: 20 % of cases place map_blocks with a block-local kernel (b - b.max(), integer inputs) as the ROOT consumer over pushdown-able subtrees and directed take-window programs; raw, simplified and fused values must agree with the mirror computed over the advertised grid.'
+)
